@@ -98,6 +98,9 @@ func (c *abortCtl) hook(point string, vm *ugo.VM) {
 			case <-c.doneCh:
 			case <-time.After(2 * time.Second):
 			}
+			// the runner stays where it is for a while after the first Abort (a loaded scheduler):
+			// Eval must keep repeating Abort until Run returns, however late Run resets the flag
+			time.Sleep(8 * time.Millisecond)
 			return
 		}
 		if c.free > 0 {
